@@ -74,6 +74,7 @@ func c14Property(t *rapid.T) {
 	var roleProposals []string
 	var pendingRoleIDs []string
 	mixedBlock := false
+	selfTransfers := 0
 	nBlocks := rapid.IntRange(1, 6).Draw(t, "blocks")
 	for bi := 0; bi < nBlocks; bi++ {
 		var txs []*c14Tx
@@ -86,6 +87,9 @@ func c14Property(t *rapid.T) {
 				to := pool[rapid.IntRange(0, len(pool)-1).Draw(t, "to")]
 				var toAddr *types.Address
 				switch {
+				case to == from && rapid.Bool().Draw(t, "selfTransfer"):
+					toAddr = from.Addr // self-transfer
+					selfTransfers++
 				case to == from:
 					toAddr = constant.StoreContractAddr.Address() // a contract address
 				default:
@@ -346,6 +350,9 @@ func c14Property(t *rapid.T) {
 	if mixedBlock {
 		classes = append(classes, "block-with-success+failure+fee-fallback")
 		nt = strings.Join(ops, "\n")
+	}
+	if selfTransfers > 0 {
+		classes = append(classes, "self-transfer")
 	}
 	st.Case(nt, classes...)
 	if nt != "" && st.WantSample() {
